@@ -205,6 +205,10 @@ def judge_round(ctx, sc, rnd):
 
 def run(ctx):
     gen.gen_consts()
+    try:
+        gen.gen_senders()
+    except gen.GenError as e:
+        gen._fail("senders", str(e))
     if ctx.replay:
         return replay(ctx)
     ctx.prove()
